@@ -1059,7 +1059,7 @@ func main() {
 				}
 			}
 			// Coq: the sizes around 256 with the selections that put 255/256/257 chosen transactions below one node
-			c := corr && n >= 255 && n <= 257 && (name == "full" || name == "first_256_and_last")
+			c := corr && ((n == 256 && name == "full") || (n == 257 && (name == "full" || name == "first_256_and_last")))
 			runSubset(bk, st[name], rb, c, false, "big:"+name)
 		}
 	}
